@@ -177,20 +177,22 @@ def run_transforms(ns):
     tmp = tempfile.mkdtemp(prefix="c13t_")
     xp = get_xp(ns)
     lo, hi = np.array([0.0, -5.0]), np.array([1.0, 20.0])
-    pb = {"a": [0.0, 1.0], "b": [-5.0, 20.0]}
+    # names whose alphabetical order differs from their position (HDF5 returns group members sorted by name)
+    PA, PB = "zeta", "alpha"
+    pb = {PA: [0.0, 1.0], PB: [-5.0, 20.0]}  # insertion order = parameter order; a reload sees them sorted by name
     probe = lo + (hi - lo) * np.array([[0.1, 0.9], [0.5, 0.5], [0.8, 0.2], [0.3, 0.6]])
     specs = [("IdentityTransform", lambda dt: T.IdentityTransform(xp=xp, dtype=dt)),
              ("PeriodicTransform", lambda dt: T.PeriodicTransform(lower=lo, upper=hi, xp=xp, dtype=dt)),
              ("LogitTransform", lambda dt: T.LogitTransform(lower=lo, upper=hi, xp=xp, dtype=dt, eps=1e-5)),
              ("ProbitTransform", lambda dt: T.ProbitTransform(lower=lo, upper=hi, xp=xp, dtype=dt, eps=1e-5)),
              ("AffineTransform", lambda dt: T.AffineTransform(xp=xp, dtype=dt))]
-    for per, b2u, bt, aff in [([], True, "logit", True), (["b"], True, "probit", False), (["a", "b"], False, "logit", True),
-                              ([], False, "logit", False), ([], True, "probit", True), (["a"], True, "logit", True)]:
+    for per, b2u, bt, aff in [([], True, "logit", True), ([PB], True, "probit", False), ([PA, PB], False, "logit", True),
+                              ([], False, "logit", False), ([], True, "probit", True), ([PA], True, "logit", True)]:
         specs.append((f"CompositeTransform[{','.join(per)}|{b2u}|{bt}|{aff}]",
-                      lambda dt, per=per, b2u=b2u, bt=bt, aff=aff: T.CompositeTransform(parameters=["a", "b"], periodic_parameters=per, prior_bounds=pb,
+                      lambda dt, per=per, b2u=b2u, bt=bt, aff=aff: T.CompositeTransform(parameters=[PA, PB], periodic_parameters=per, prior_bounds=pb,
                                                                                      bounded_to_unbounded=b2u, bounded_transform=bt, affine_transform=aff,
                                                                                      xp=xp, dtype=dt, eps=1e-5)))
-    specs.append(("FlowTransform", lambda dt: T.FlowTransform(parameters=["a", "b"], prior_bounds=pb, bounded_transform="logit", xp=xp, dtype=dt)))
+    specs.append(("FlowTransform", lambda dt: T.FlowTransform(parameters=[PA, PB], prior_bounds=pb, bounded_transform="logit", xp=xp, dtype=dt)))
     try:
         for (name, mk), dt, fitted in itertools.product(specs, ("float32", "float64"), (False, True)):
             case = {"part": "transform", "class": name, "ns": ns, "dtype": dt, "fitted": fitted}
@@ -252,7 +254,7 @@ def run_flows(arg):
 
             kwargs = {} if kwargs_name == "default" else {"nn_width": 8, "nn_depth": 1, "flow_layers": 2}
             mk = lambda dtf: F(dims=2, key=jax.random.key(3), dtype=dt, data_transform=dtf, **kwargs)
-        dtf = FlowTransform(parameters=["a", "b"], prior_bounds={"a": [0.0, 1.0], "b": [-5.0, 20.0]}, bounded_transform="logit",
+        dtf = FlowTransform(parameters=["zeta", "alpha"], prior_bounds={"zeta": [0.0, 1.0], "alpha": [-5.0, 20.0]}, bounded_transform="logit",
                             xp=fxp, dtype=get_dtype("torch" if backend == "zuko" else "jax", dt))
         rng = np.random.default_rng(0)
         x = np.stack([0.2 + 0.6 * rng.uniform(size=64), -3 + 20 * rng.uniform(size=64)], axis=1)
